@@ -80,19 +80,43 @@ namespace lang
             v.size_ = 0;
         }
 
-        constexpr fixed_vector operator=(const fixed_vector& v)
+        constexpr fixed_vector& operator=(const fixed_vector& v)
         {
-            return fixed_vector(v);
+            if (this != &v)
+            {
+                fixed_vector tmp(v);
+
+                std::swap(size_, tmp.size_);
+                std::swap(capacity_, tmp.capacity_);
+                std::swap(data_, tmp.data_);
+            }
+
+            return *this;
         }
 
-        constexpr fixed_vector operator=(fixed_vector&& v)
+        constexpr fixed_vector& operator=(fixed_vector&& v)
         {
-            return fixed_vector(std::move(v));
+            if (this != &v)
+            {
+                fixed_vector tmp(std::move(v));
+
+                std::swap(size_, tmp.size_);
+                std::swap(capacity_, tmp.capacity_);
+                std::swap(data_, tmp.data_);
+            }
+
+            return *this;
         }
 
-        constexpr fixed_vector operator=(const std::initializer_list<value_type>& l)
+        constexpr fixed_vector& operator=(const std::initializer_list<value_type>& l)
         {
-            return fixed_vector(l.size(), l);
+            fixed_vector tmp(l.size(), l);
+
+            std::swap(size_, tmp.size_);
+            std::swap(capacity_, tmp.capacity_);
+            std::swap(data_, tmp.data_);
+
+            return *this;
         }
 
         ~fixed_vector() = default;
